@@ -1,7 +1,7 @@
 """C09 — formatting is idempotent and consistent with --check.
 
 proof:   coq/C09/Props.v: token-level idempotence as a corollary of the C08 round trip (Fmt/Roundtrip.v), the writer /
-         format_program model (every output ends in TWO newlines: `exactly one` is refuted), the format_files model
+         format_program model (every non-empty output ends in exactly one newline), the format_files model
          (check/diff read-only, fmt writes exactly the changed files, check-after-fmt exits 0).
 tie:     the Coq format_program model evaluated on the real per-declaration texts must give the real whole-file text;
          the Coq format_files model evaluated on the measured per-file statuses must give the real exit code and the
@@ -150,6 +150,7 @@ def program_tie(chk, binary, items, corr_bad):
             cmds = []
             for line in body.split("\n")[:-1] if body.endswith("\n") else body.split("\n"):
                 cmds.append("W %s; NL" % vlib.zlist([ord(c) for c in line]) if line else "NL")
+            cmds += ["NL"] * d["trail"]      # the blank line a trailing `match` statement leaves (trimmed only at end of file)
             ds.append("{| d_cmds := [%s]; d_doc := %s |}" % ("; ".join(cmds), "true" if d["kind"] == "Docstring" else "false"))
         terms.append("fmt_text [%s]" % "; ".join(ds))
         wants.append([ord(c) for c in r["whole"]["text"]])
@@ -182,8 +183,8 @@ def run(chk):
     ]
     chk.assumptions = [
         "idempotence is proved at token level for the C08 expression core only; for everything else it is checked on the implementation",
-        "no_trailing_ws is NOT a Coq theorem: it is checked on the implementation (two listed classes: `=> ` before a block arm, `if ` of an if-expression)",
-        "ends_line (every format_declaration arm finishes with newline() then only dedent()s) is a hypothesis of C09_final_newlines_two, read off formatter.rs and exercised by the program tie",
+        "no_trailing_ws is NOT a Coq theorem: it is checked on the implementation (one listed class left: `if ` of an if-expression)",
+        "ends_line (every format_declaration arm finishes with newline() then only dedent()s) is a hypothesis of C09_ends_with_one_newline, read off formatter.rs and exercised by the program tie",
     ]
     known = c08.load_findings(chk, "C09", c08.PROPOSED_C09)
     c08f = vlib.known_findings("C08")
